@@ -113,6 +113,7 @@ type Explorer struct {
 	Errors    []string
 	SolverErr []string
 	Fallbacks int
+	Witness   *Violation // values of one completed path (for translation validation by native replay)
 	snaps     []*snapshot
 	qcache    sync.Map
 	pushed    sync.Map
@@ -316,6 +317,34 @@ func (e *Explorer) worker(i int) {
 	}
 }
 
+// recordWitness keeps the concrete values of the first completed path: the check replays them
+// natively and expects every assertion to hold there too (translation validation).
+func (e *Explorer) recordWitness(s *State) {
+	e.mu.Lock()
+	have := e.Witness != nil
+	e.mu.Unlock()
+	if have || e.Cfg.Params["twin"] == 1 {
+		return
+	}
+	r, m := s.solve(s.modelVars())
+	if r != Sat {
+		return
+	}
+	w := &Violation{ID: "", Harness: e.Entry.Name(), Model: m, Trace: append([]int{}, s.trace...), Sched: append([]int{}, s.sched...), Choices: append([]int{}, s.choices...)}
+	w.UF = map[string][][2]uint64{}
+	memo := map[*Term]uint64{}
+	for _, ap := range s.apps {
+		if ap.N == 1 {
+			w.UF[ap.Name] = append(w.UF[ap.Name], [2]uint64{Eval(ap.A[0], m, nil, memo), m[Label(ap)]})
+		}
+	}
+	e.mu.Lock()
+	if e.Witness == nil {
+		e.Witness = w
+	}
+	e.mu.Unlock()
+}
+
 // saveSnapshot stores a deep copy of s (called at vfBegin) keyed by the decisions made so far.
 func (e *Explorer) saveSnapshot(s *State) {
 	if s.fromSnap || s.merge != nil {
@@ -418,6 +447,7 @@ func (e *Explorer) runPath(solver *Solver, fbs []*Solver, prefix []int) {
 		}()
 		if resume {
 			s.runAll(true)
+			e.recordWitness(s)
 			return
 		}
 		main := &Thread{id: 0, name: "main"}
@@ -427,6 +457,7 @@ func (e *Explorer) runPath(solver *Solver, fbs []*Solver, prefix []int) {
 		s.runInit()
 		s.pushFrame(e.Entry, nil, nil, nil)
 		s.runAll(false)
+		e.recordWitness(s)
 	}()
 	solver.Pop()
 	if status == "panic" {
